@@ -105,6 +105,27 @@ def _recvfrom_const(path, scope: list) -> int:
     return vals[0]
 
 
+NAME_REGEX = r"^[-_a-zA-Z0-9()]+$"
+
+
+def _object_name_rule() -> int:
+    """`is_valid_object_name`: the length limit; the character class must be the one the model mirrors"""
+    tree = ast.parse((core.REPO / "qmi/core/util.py").read_text())
+    fn = [n for n in ast.walk(tree) if isinstance(n, ast.FunctionDef) and n.name == "is_valid_object_name"]
+    if len(fn) != 1:
+        raise ValueError("util.py: is_valid_object_name not found")
+    lims = [c.comparators[0].value for c in ast.walk(fn[0])
+            if isinstance(c, ast.Compare) and len(c.ops) == 1 and isinstance(c.ops[0], ast.Gt)
+            and isinstance(c.left, ast.Call) and getattr(c.left.func, "id", None) == "len"
+            and isinstance(c.comparators[0], ast.Constant) and isinstance(c.comparators[0].value, int)]
+    regs = [c.args[0].value for c in ast.walk(fn[0])
+            if isinstance(c, ast.Call) and isinstance(c.func, ast.Attribute) and c.func.attr == "match"
+            and c.args and isinstance(c.args[0], ast.Constant) and isinstance(c.args[0].value, str)]
+    if len(lims) != 1 or regs != [NAME_REGEX]:
+        raise ValueError(f"is_valid_object_name not understood: length limits {lims}, patterns {regs}")
+    return lims[0]
+
+
 def read_layout() -> tuple[Layout, dict]:
     import ctypes
     import qmi.core.udp_responder_packets as P
@@ -145,6 +166,7 @@ def read_layout() -> tuple[Layout, dict]:
         enumTags=[m.value for m in E], lookup=lookup, headerSizeof=hsz,
         responderRecvMax=_recvfrom_const(core.REPO / "qmi/core/messaging.py", ["_UdpResponder", "_handle_read"]),
         clientRecvMax=_recvfrom_const(core.REPO / "qmi/core/context.py", ["ping_qmi_contexts"]),
+        maxObjectNameLen=_object_name_rule(),
     )
     for v in d["enumTags"]:
         if not isinstance(v, int) or v < 0:
@@ -165,6 +187,8 @@ def render_gen(lay: Layout, tables: dict) -> str:
     L.append(f"def headerSizeof : Nat := {lay.headerSizeof}")
     L.append(f"def responderRecvMax : Nat := {lay.responderRecvMax}")
     L.append(f"def clientRecvMax : Nat := {lay.clientRecvMax}")
+    L.append("/-- `is_valid_object_name`: at most this many characters, all of `[-_a-zA-Z0-9()]` (pattern checked by the translator) -/")
+    L.append(f"def maxObjectNameLen : Nat := {lay.maxObjectNameLen}")
     L.append("")
     L.append("/-! field tables as read (name, offset, size) — for the record -/")
     for name, tab in tables.items():
@@ -356,6 +380,74 @@ def quiet():
 
 
 # ---------------------------------------------------------------------------
+# which contexts can exist: the real QMI_Context constructor (its RPC thread is not started for the probe)
+# ---------------------------------------------------------------------------
+
+_ADMIT_CACHE: dict = {}
+
+
+def admit_impl(name: str, wg: str) -> str:
+    """`QMI_Context(name, CfgQmi(workgroup=wg))` on the tree under test: 'ok' or 'exc:<Type>'"""
+    key = (name, wg)
+    if key not in _ADMIT_CACHE:
+        import qmi.core.context as C
+        from qmi.core.config_defs import CfgQmi
+        with quiet(), patched(C.QMI_Context, _internal_make_rpc_object=lambda self, *a, **k: None):
+            try:
+                c = C.QMI_Context(name, CfgQmi(workgroup=wg))
+                ok = (c.name == name and c.workgroup_name == wg and c._message_router.workgroup_name == wg
+                      and c._message_router.context_name == name)
+                _ADMIT_CACHE[key] = "ok" if ok else "names-altered"
+            except Exception as e:
+                _ADMIT_CACHE[key] = "exc:" + type(e).__name__
+    return _ADMIT_CACHE[key]
+
+
+def workgroup_admitted(wg: str) -> bool:
+    """can a running context have this workgroup name?"""
+    return admit_impl("probe", wg) == "ok"
+
+
+def oracle_admit(lay: Layout, name: str, wg: str, out: str):
+    """a context that can be created must be reportable in a discovery answer"""
+    if out != "ok":
+        return None
+    for what, v, n in (("workgroup", wg, lay.wgLen), ("context", name, lay.nameLen)):
+        if len(v.encode("utf-8")) > n:
+            return (f"admit:context-created-with-{what}-name-longer-than-field", f"QMI_Context({name!r}, workgroup={wg!r}) was created", 0)
+        if "\0" in v:
+            return (f"admit:context-created-with-NUL-in-{what}-name", f"QMI_Context({name!r}, workgroup={wg!r}) was created", 0)
+    return None
+
+
+def gen_admit(rng, lay: Layout) -> tuple[str, str]:
+    r = rng.random()
+    if r < 0.5:
+        name = gen_name(rng, "valid")
+    elif r < 0.65:
+        n = rng.choice([lay.maxObjectNameLen - 1, lay.maxObjectNameLen, lay.maxObjectNameLen + 1, lay.nameLen, lay.nameLen + 1])
+        name = "".join(rng.choice(VALID_CH) for _ in range(n))
+        if rng.random() < 0.3:
+            name = name[:-1] + "\n"
+    else:
+        name = rng.choice(["", "\n", "a\n", "a\n\n", "\na", "a b", "a.b", "é", "a\0", "a*", "[a]", "(a)", "-", "_", "a" * 62 + "\n", "a" * 63 + "\n",
+                           gen_name(rng, "wide"), gen_name(rng, "globby"), gen_name(rng, "short")])
+    r = rng.random()
+    if r < 0.4:
+        wg = gen_name(rng)
+    elif r < 0.8:
+        n = rng.choice([0, 1, lay.wgLen - 1, lay.wgLen, lay.wgLen, lay.wgLen + 1, lay.wgLen + 1, lay.wgLen + 2, 2 * lay.wgLen])
+        ch = rng.choice(["a", "é", "€", "😀"])
+        w = len(ch.encode())
+        wg = ch * (n // w) + "a" * (n % w)
+    else:
+        base = gen_name(rng) or "a"
+        i = rng.randrange(len(base) + 1)
+        wg = base[:i] + "\0" + base[i:]
+    return name, wg
+
+
+# ---------------------------------------------------------------------------
 # responder sessions on the real _UdpResponder
 # ---------------------------------------------------------------------------
 # session = {"name","wg","pid","port","dgrams":[{"addr":k,"data":hex,"rid":int,"now":hex} | {"nopkt":1}], "mode":"direct"|"loop"}
@@ -488,7 +580,9 @@ def oracle_session(lay: Layout, s: dict, trace) -> tuple | None:
     import fnmatch
     name, wg = s["name"], s["wg"]
     nb, wb = name.encode("utf-8"), wg.encode("utf-8")
-    name_ok = len(nb) <= lay.nameLen and "\0" not in name     # names a running context can have (see module doc)
+    # the contexts the property speaks about are those that can exist: the workgroup name must be accepted by the real
+    # QMI_Context constructor; context names are taken from the wider set the packet can carry (internal names)
+    name_ok = len(nb) <= lay.nameLen and "\0" not in name and workgroup_admitted(wg)
     loop_mode = s.get("mode") == "loop"
     for i, (d, t) in enumerate(zip(s["dgrams"], trace)):
         if "nopkt" in d:
@@ -738,7 +832,7 @@ def oracle_client(lay: Layout, c: dict, info) -> tuple | None:
     if c.get("responders") and not c["dgrams"]:
         want = []
         for r in c["responders"]:
-            if len(r["wg"].encode()) > lay.wgLen or "\0" in r["wg"] or "\0" in r["name"] or len(r["name"].encode()) > lay.nameLen:
+            if not workgroup_admitted(r["wg"]) or "\0" in r["name"] or len(r["name"].encode()) > lay.nameLen:
                 continue
             try:
                 fw, fc = cval(f[4]).decode(), cval(f[5]).decode()
@@ -746,7 +840,7 @@ def oracle_client(lay: Layout, c: dict, info) -> tuple | None:
                 return None
             if fnmatch.fnmatchcase(r["wg"], fw) and fnmatch.fnmatchcase(r["name"], fc) and r["name"] != c["self"]:
                 want.append((r["name"], f"{addr_of(r['addr'])[0]}:{r['port']}"))
-        skip = any(len(r["wg"].encode()) > lay.wgLen or "\0" in r["wg"] or "\0" in r["name"] or len(r["name"].encode()) > lay.nameLen
+        skip = any(not workgroup_admitted(r["wg"]) or "\0" in r["name"] or len(r["name"].encode()) > lay.nameLen
                    for r in c["responders"])
         if not skip and got != want:
             return ("discovery:end-to-end-list-differs", f"got {got}, want {want}", 0)
@@ -1110,7 +1204,8 @@ def sys_sessions(rng, lay: Layout, deep: bool) -> list:
     # 6. pid / port
     for pid, port in [(1, 0), (2 ** 31 - 1, 65535), (4194304, 1), (77, -1), (0, 35999), (2 ** 31, 2 ** 31 - 1), (-5, -2 ** 31), (2 ** 32 + 9, 2 ** 32 + 80)]:
         S.append({**base, "pid": pid, "port": port, "dgrams": [dg(good)], "tag": "pid-port"})
-    # 7. names the packet format cannot carry (found defects live here; see known_findings.d/C18.json)
+    # 7. names the packet format cannot carry: since fix eeba404 no context can have them (QMI_Context.__init__ refuses);
+    #    the responder alone still behaves as the model says, and the oracle would flag them again if a context could exist
     S.append({**base, "wg": "w" * (lay.wgLen + 1), "dgrams": [dg(o_request(lay, 5, unhx(ts0), b"*", b"*")), dg(o_request(lay, 6, unhx(ts0), b"x", b"*"))],
               "tag": "workgroup-too-long"})
     S.append({**base, "wg": "é" * (lay.wgLen // 2) + "a", "dgrams": [dg(o_request(lay, 5, unhx(ts0), b"*", b"*"))], "tag": "workgroup-too-long"})
@@ -1193,6 +1288,8 @@ class C18(Prop):
         "`bytes.decode()` / `str.encode()` (strict UTF-8): modelled by `utf8Decode`/`utf8Encode`, diffed on generated byte strings",
         "UDP itself, `recvfrom` truncation to the buffer size, the selector loop and the 0.1 s collection window of `ping_qmi_contexts` "
         "(a fake socket, selector and clock stand in); `random.randint`, `time.time`, `os.getpid`, `os._exit` are inputs/effects of the model",
+        "QMI_Context.__init__ name checks (`is_valid_object_name`, workgroup fits the packet field, no NUL): modelled by "
+        "`admitContext` (length limit and character class read from util.py by the translator), diffed against the real constructor",
         "c_double fields are carried as 8 opaque bytes (float → float copies are bit-exact on this platform; checked for every bit)",
     ]
     extra_trusted = [
@@ -1265,7 +1362,9 @@ class C18(Prop):
                           "(c) responder sessions = context + datagram list (requests, NUL-cut and non-UTF-8 filters, truncations at every "
                           "length, extensions, oversize, magic bit errors, every tag value region, random bytes, responses, kill) ending in "
                           "valid requests, run on the real _UdpResponder directly and under a real asyncio loop; (d) discovery calls on a fake "
-                          "socket with forged/foreign/garbled answers and in-memory responders. distinct = by content; non-trivial = all.")
+                          "socket with forged/foreign/garbled answers and in-memory responders; (e) (context name, workgroup) pairs at the "
+                          "limits of is_valid_object_name and of the 64-byte field given to the real QMI_Context constructor. "
+                          "distinct = by content; non-trivial = all.")
         batch: list = []
 
         # (a) three-way glob diff
@@ -1354,9 +1453,29 @@ class C18(Prop):
         self._flush(res, cb, "Discovery.discover vs discover_peer_contexts")
         ctx.log("discovery calls done")
 
-        # (e) pieces: unpack field cutting against the live ctypes offsets; UTF-8 decoding
+        # (e) which contexts can exist: QMI_Context.__init__ against Discovery.admitContext, and "created => reportable"
+        self._admission(ctx, lay, res)
+
+        # (f) pieces: unpack field cutting against the live ctypes offsets; UTF-8 decoding
         self._pieces(ctx, lay, res)
         return res
+
+    def _admission(self, ctx, lay, res, n=None):
+        rng = ctx.rng
+        ab = []
+        fixed = [("ctxA", "w" * lay.wgLen), ("ctxA", "w" * (lay.wgLen + 1)), ("ctxA", "é" * (lay.wgLen // 2)), ("ctxA", "é" * (lay.wgLen // 2) + "a"),
+                 ("ctxA", "ab\0cd"), ("ctxA", "\0"), ("ctxA", ""), ("a" * lay.maxObjectNameLen, "grp"), ("a" * (lay.maxObjectNameLen + 1), "grp"),
+                 ("a\n", "grp"), ("", "grp")]
+        for i in range(n if n is not None else ctx.scale(1500, 15000)):
+            name, wg = fixed[i] if i < len(fixed) else gen_admit(rng, lay)
+            out = admit_impl(name, wg)
+            ab.append(([f"mkctx {shex(name)} {shex(wg)}"], [out], {"kind": "admit", "name": name, "wg": wg}))
+            res.count("admit_" + out)
+            res.note_case(("admit", name, wg))
+            v = oracle_admit(lay, name, wg, out)
+            if v and sum(1 for f in res.failures if f.signature == v[0]) < 2:
+                res.failures.append(Failure(v[0], f"{v[0]} — {v[1]}", {"kind": "admit", "name": name, "wg": wg}))
+        self._flush(res, ab, "Discovery.admitContext vs QMI_Context.__init__")
 
     def _do_client(self, lay, res, c, cb):
         try:
@@ -1458,6 +1577,11 @@ class C18(Prop):
                 res.note_case(("re", repr(c)[:200]))
                 if v:
                     res.failures.append(Failure(v[0], f"{v[0]} — {v[1]}", {"kind": "client", "client": c["client"]}))
+            elif c.get("kind") == "admit":
+                v = oracle_admit(lay, c["name"], c["wg"], admit_impl(c["name"], c["wg"]))
+                res.note_case(("re", repr(c)[:200]))
+                if v:
+                    res.failures.append(Failure(v[0], f"{v[0]} — {v[1]}", dict(c)))
             elif c.get("kind") == "glob" and fits_filter(lay, c["pat"]):
                 for role in ("name", "wg"):
                     s = {"name": c["name"] if role == "name" else "peer", "wg": c["name"] if role == "wg" else "grp", "pid": 1, "port": 2,
@@ -1471,6 +1595,10 @@ class C18(Prop):
         if res.failures:
             return res
         # systematic sweeps on the implementation alone
+        self._admission(ctx, lay, res, n=4000)
+        res.broken = []
+        if res.failures:
+            return res
         for s in sys_sessions(rng, lay, deep=True):
             s.pop("tag")
             for mode in ("direct", "loop") if len(s["dgrams"]) < 300 else ("direct",):
@@ -1512,7 +1640,9 @@ class C18(Prop):
 
     def replay(self, ctx: Ctx, rp: dict):
         lay, _ = read_layout()
-        if rp.get("kind") == "client":
+        if rp.get("kind") == "admit":
+            v = oracle_admit(lay, rp["name"], rp["wg"], admit_impl(rp["name"], rp["wg"]))
+        elif rp.get("kind") == "client":
             v = oracle_client(lay, rp["client"], run_client_impl(lay, rp["client"])[2])
         else:
             v = oracle_session(lay, rp["session"], run_session_impl(rp["session"])[1])
